@@ -530,8 +530,26 @@ Definition ids_consistent_text (t : str) : string :=
   | _ => ""     (* reported by check_case *)
   end.
 
+(* The state of the id generator at the start of a save is not observable in ONE file and the property
+   (like author_ids_consistent, which holds for ANY starting state) does not fix it: the first id is an
+   oracle read from the text (the smallest author id written), the case's own value if there is none. *)
+Definition id_of_str (s : str) : option nat :=
+  let '(v, cnt, _, rest) := take_digits s 0%Z O O in
+  match cnt, rest with Datatypes.S _, [] => Some (Z.to_nat v) | _, _ => None end.
+Definition first_id_of_text (t : str) (dflt : nat) : nat :=
+  match parse t with
+  | Some [b] =>
+      let aids := column_values (S "audit_contact_author.id") (snd b) ++ column_values (S "audit_author.id") (snd b) in
+      match flat_map (fun s => match id_of_str s with Some n => [n] | None => [] end) aids with
+      | [] => dflt
+      | n :: r => fold_left Nat.min r n
+      end
+  | _ => dflt
+  end.
+
 Definition check_builder (R : rules) (core pd : schema) (version : list N) (spallation : list str) (b : bcase) : string :=
-  let c := build core pd version spallation b in
+  let first := match bc_out b with OText t => first_id_of_text t (bc_first_id b) | _ => bc_first_id b end in
+  let c := build core pd version spallation (mkbcase (bc_name b) (bc_comment b) (bc_calls b) first (bc_out b)) in
   match (match bc_out b with OText t => ids_consistent_text t | _ => "" end) with
   | "" => check_case R core c
   | e => e
